@@ -332,6 +332,14 @@ def perform_zhit(
         raise ValueError(
             f"There are no unmasked data points in the '{data.get_label()}' data set parsed from '{data.get_path()}'"
         )
+    elif len(f) < 2:
+        raise ValueError(
+            f"Expected at least two unmasked data points instead of {len(f)} in the '{data.get_label()}' data set"
+        )
+    elif smoothing != "none" and num_points > len(f):
+        raise ValueError(
+            f"Expected {num_points=} to be less than or equal to the number of unmasked data points ({len(f)})"
+        )
 
     log_f: NDArray[float64] = log(f)
     ln_omega: NDArray[float64] = ln(2 * pi * f)
